@@ -42,6 +42,25 @@ Subst(t, m) ==
     [] OTHER -> t
 \* is the tree a literal zero? (for the error of pow(0, 0))
 IsLitZero(T, t) == t.k = "num" /\ NumOk(t) /\ NumVal(t) = 0
+\* pow looks at its operands after constant folding and after the neutral-element shortcuts, so an operand whose
+\* unsimplified form is not a literal may have become the number zero (-0, 1-1, x*0, sin(0); 0.1+0.2-0.3 is zero in the
+\* field but not in floats).  The property excludes powers with base zero and non-positive exponent, hence a power whose
+\* operands both may have become zero is not constrained.  ZInfo over-approximates: num = may be held as a plain number,
+\* zero = may be the number zero, fn = contains an operator other than + - * / ^ and signs.
+RECURSIVE ZInfo(_, _)
+ZInfo(T, t) ==
+  CASE t.k = "num" -> [num |-> TRUE, zero |-> ~NumOk(t) \/ NumVal(t) = 0, fn |-> FALSE]
+    [] t.k = "un" -> LET a == ZInfo(T, t.a) IN
+                     IF T[t.o].usem \in {"neg", "pos"} THEN a ELSE [num |-> a.num, zero |-> a.num, fn |-> TRUE]
+    [] t.k = "bin" ->
+         LET l == ZInfo(T, t.l) r == ZInfo(T, t.r) s == T[t.o].sem
+             fn == l.fn \/ r.fn \/ s \notin {"add", "sub", "mul", "div", "pow"}
+             num == (l.num /\ r.num) \/ (s = "mul" /\ (l.zero \/ r.zero)) \/ (s = "div" /\ l.zero) \/ (s = "pow" /\ (l.zero \/ r.zero))
+         IN [num |-> num, fn |-> fn,
+             zero |-> num /\ (fn \/ LET b == FieldEval(T, t, [names |-> <<>>, vals |-> <<>>]) IN ~b.ok \/ b.v = 0)]
+    [] t.k = "const" -> [num |-> TRUE, zero |-> FALSE, fn |-> FALSE]
+    [] OTHER -> [num |-> FALSE, zero |-> FALSE, fn |-> FALSE]
+MaybeConstZero(T, t) == ZInfo(T, t).zero
 
 RECURSIVE DIter(_, _, _, _)
 \* derivative along the index sequence ks (0-based indices into vars)
@@ -78,6 +97,7 @@ Effect(T, pool, st) ==
            ELSE LET o == OpByName(T, StdBin[st.op], "bin") b == pool[st.j] IN
                 IF o = 0 THEN [r |-> "err", early |-> FALSE]
                 ELSE IF st.op = "pow" /\ IsLitZero(T, a.den) /\ IsLitZero(T, b.den) THEN [r |-> "err", early |-> FALSE]
+                ELSE IF st.op = "pow" /\ MaybeConstZero(T, a.den) /\ MaybeConstZero(T, b.den) THEN [r |-> "free"]
                 ELSE [r |-> "entry", e |-> Entry(a.form, SortedUnion(a.vars, b.vars), Bin(o, a.den, b.den))]
          ELSE LET o == OpByName(T, StdUnName(st.op), "un") IN
               IF o = 0 THEN [r |-> "err", early |-> FALSE] ELSE [r |-> "entry", e |-> Entry(a.form, a.vars, Un(o, a.den))]
